@@ -31,7 +31,14 @@ def modelSeqIter (file : Bytes) (idx : List (Str × FastaInfo)) (bs : Int) (row 
 
 /-- `FastaStream.write_scaffold`, as translated from the source, returns what the model's `streamScaffold` writes — same bytes,
     same exception — for EVERY `file`, index, `buffer_size`, `line_length` (also `≤ 0`) and scaffold, for every fuel of the
-    `while True` loop above the length of every chunk the iterators yield for the rows of the scaffold. -/
+    `while True` loop above the length of every chunk the iterators yield for the rows of the scaffold.
+    * No hypothesis on `w` / `bs`: `BytesIO.read(want)` and `writeChunk` agree for `want < 0` (read everything), `want = 0`
+      (read nothing → `break`) and `want > 0` alike; the chunk arithmetic is inside the iterators, which are the model's.
+    * `hfuel` is the only hypothesis and it is needed: a chunk of `L` bytes takes up to `L + 1` passes of the `while True` body
+      (`L` one-byte reads at `w = 1`, plus the empty read that breaks), and the translated loop reports `Err.other` when it runs
+      out of fuel, where the model's `writeChunk` carries its own fuel `L + 1` (see the examples below: fuel 3, chunk length 3).
+      For gap rows `bs.toNat < fuel` is enough (`ImpStream.gapIter_length_le`).
+    * `gc` is fixed to `Gen.gapCharacter` (`b"N"`), the value the model hard-wires (`Gen.gapCharacter.headD 78`). -/
 theorem write_scaffold_is_source (file : Bytes) (idx : List (Str × FastaInfo)) (bs w : Int) (sc : Scaffold) (fuel : Nat)
     (hfuel : ∀ row ∈ sc.rows,
       (∀ c ∈ modelGapIter bs row Gen.gapCharacter, c.data.length < fuel) ∧
@@ -53,6 +60,7 @@ theorem write_scaffold_is_source (file : Bytes) (idx : List (Str × FastaInfo)) 
     simp only [ImpStream.proj] at hrows
     rw [← hrows]
     unfold streamScaffold
+    dsimp only
     cases List.foldlM (streamRow file idx bs w) { out := [62] ++ strToBytes sc.name ++ [10], want := w } sc.rows with
     | error e => rfl
     | ok log =>
@@ -86,7 +94,70 @@ theorem write_scaffold_is_source (file : Bytes) (idx : List (Str × FastaInfo)) 
           dsimp only
           by_cases h1 : (c.read want).1.isEmpty = true
           · simp [h1]
-          · by_cases h2 : want - ((c.read want).1.length : Int) = 0 <;> simp [h1, h2, bind, Except.bind]
+          · by_cases h2 : want - ((c.read want).1.length : Int) = 0 <;> simp [h1, h2]
         · intro want c out; rfl
+
+/-! Examples: `>a\nACGTNN\nAC\n` (index entry: offset 3, 6 residues per line, 7 bytes per line); scaffold `s1` =
+    a[1..4] forward, a gap of 5, a[3..8] on the minus strand; `buffer_size = 3`. -/
+
+/-- the translated source, run: line length 4, fuel 4 -/
+example : Gen.Imp.FastaStream_write_scaffold 4
+    { name := "s1".toList, rows := [
+      .frag { oid := 0, name := "a".toList, start := 1, stop := 4, strand := 1, tags := [] },
+      .gap { length := 5, gapType := "scaffold".toList },
+      .frag { oid := 1, name := "a".toList, start := 3, stop := 8, strand := -1, tags := [] }] }
+    4 Gen.gapCharacter (modelGapIter 3)
+    (modelSeqIter [62, 97, 10, 65, 67, 71, 84, 78, 78, 10, 65, 67, 10]
+      [("a".toList, { length := 8, fileOffset := 3, rpl := 6, mll := 7 })] 3)
+    = .ok (strToBytes ">s1\nACGT\nNNNN\nNGTN\nNAC\n".toList) := by rfl
+
+/-- the chunks the two iterators yield there (all of length ≤ 3, so `hfuel` holds from `fuel = 4` on) -/
+example : modelGapIter 3 (.gap { length := 5, gapType := "scaffold".toList }) Gen.gapCharacter
+    = [{ data := [78, 78, 78] }, { data := [78, 78] }] := by decide +kernel
+example : modelSeqIter [62, 97, 10, 65, 67, 71, 84, 78, 78, 10, 65, 67, 10]
+    [("a".toList, { length := 8, fileOffset := 3, rpl := 6, mll := 7 })] 3
+    (.frag { oid := 1, name := "a".toList, start := 3, stop := 8, strand := -1, tags := [] })
+    = .ok [{ data := [71, 84, 78] }, { data := [78, 65, 67] }] := by rfl
+
+/-- `hfuel` is satisfiable (fuel 4 for that scaffold), and it is needed and tight: with line length 1 every byte of a 3-byte chunk
+    is a separate `read`, plus the empty one that breaks — 4 passes; with fuel 3 the translated loop runs out (`Err.other`) where
+    the model (and Python) write the record. -/
+example : ∀ row ∈ [Row.gap { length := 5, gapType := "scaffold".toList },
+      Row.frag { oid := 1, name := "a".toList, start := 3, stop := 8, strand := -1, tags := [] }],
+    (∀ c ∈ modelGapIter 3 row Gen.gapCharacter, c.data.length < 4) ∧
+    (∀ cs, modelSeqIter [62, 97, 10, 65, 67, 71, 84, 78, 78, 10, 65, 67, 10]
+        [("a".toList, { length := 8, fileOffset := 3, rpl := 6, mll := 7 })] 3 row = .ok cs → ∀ c ∈ cs, c.data.length < 4) := by
+  intro row hrow
+  simp only [List.mem_cons, List.not_mem_nil, or_false] at hrow
+  rcases hrow with rfl | rfl
+  · exact ⟨by decide +kernel, fun cs h => by cases h⟩
+  · refine ⟨by decide +kernel, fun cs h => ?_⟩
+    have h' : modelSeqIter [62, 97, 10, 65, 67, 71, 84, 78, 78, 10, 65, 67, 10]
+        [("a".toList, { length := 8, fileOffset := 3, rpl := 6, mll := 7 })] 3
+        (.frag { oid := 1, name := "a".toList, start := 3, stop := 8, strand := -1, tags := [] })
+        = .ok [{ data := [71, 84, 78] }, { data := [78, 65, 67] }] := by rfl
+    rw [h'] at h; cases h; decide
+example : Gen.Imp.FastaStream_write_scaffold 3
+    { name := "s1".toList, rows := [.gap { length := 5, gapType := "scaffold".toList }] }
+    1 Gen.gapCharacter (modelGapIter 3) (modelSeqIter [] [] 3) = .error .other := by rfl
+example : (streamScaffold [] [] 3 1 { name := "s1".toList, rows := [.gap { length := 5, gapType := "scaffold".toList }] }).map (·.out)
+    = .ok (strToBytes ">s1\nN\nN\nN\nN\nN\n".toList) := by rfl
+
+/-- no hypothesis on the line length: at `line_length = 0` the first `read(0)` is empty, so source and model both write the header
+    only; at a negative line length `read(want)` returns the whole chunk, so both write the sequence on one line -/
+example : Gen.Imp.FastaStream_write_scaffold 4
+    { name := "s1".toList, rows := [.gap { length := 5, gapType := "scaffold".toList }] }
+    0 Gen.gapCharacter (modelGapIter 3) (modelSeqIter [] [] 3) = .ok (strToBytes ">s1\n".toList) := by rfl
+example : Gen.Imp.FastaStream_write_scaffold 4
+    { name := "s1".toList, rows := [.gap { length := 5, gapType := "scaffold".toList }] }
+    (-2) Gen.gapCharacter (modelGapIter 3) (modelSeqIter [] [] 3) = .ok (strToBytes ">s1\nNNNNN\n".toList) := by rfl
+
+/-- an exception from the sequence iterator (unknown sequence name: `ValueError`) is the result, after a gap row was written -/
+example : Gen.Imp.FastaStream_write_scaffold 4
+    { name := "s1".toList, rows := [.gap { length := 5, gapType := "scaffold".toList },
+      .frag { oid := 1, name := "zz".toList, start := 3, stop := 8, strand := -1, tags := [] }] }
+    4 Gen.gapCharacter (modelGapIter 3)
+    (modelSeqIter [62, 97, 10, 65, 67, 71, 84, 78, 78, 10, 65, 67, 10]
+      [("a".toList, { length := 8, fileOffset := 3, rpl := 6, mll := 7 })] 3) = .error .value := by rfl
 
 end AgpTpf.C03
